@@ -144,7 +144,7 @@ theorem vers_writeCore_none (s : Spec) (k : Bytes) (ops : List Nat) : (s.writeCo
   · intro c; rfl
 
 theorem vers_writeCore_some (s : Spec) (k x : Bytes) (ops : List Nat) :
-    (s.writeCore k (some x) ops).vers k = (Spec.pushOrSwap s.marks s.clock (s.vers k) x).1 := by
+    (s.writeCore k (some x) ops).vers k = (Spec.pushOrSwap s.marks s.guard s.clock (s.vers k) x).1 := by
   simp only [Spec.writeCore, Spec.vers, Spec.find]
   rw [find_upsert_same _ _ _ ?_]
   · simp only [Option.map_some, Option.getD_some]
@@ -166,14 +166,14 @@ theorem marks_writeCore (s : Spec) (k : Bytes) (v : Option Bytes) (ops : List Na
   cases v <;> rfl
 
 /-- no version that is not newer than `mark` is overwritten in place by writing `x` over the history `vs` -/
-def SafeSwap (mark : Nat) (marks : List Nat) (vs : List Version) (x : Bytes) : Prop :=
+def SafeSwap (mark : Nat) (marks : List Nat) (guard : Nat) (vs : List Version) (x : Bytes) : Prop :=
   match vs with
-  | (a, old) :: _ => ¬ (a ≤ mark ∧ Spec.canModify marks a = true ∧ old.length > 0 ∧ old.length = x.length)
+  | (a, old) :: _ => ¬ (a ≤ mark ∧ Spec.canModify marks a = true ∧ a > guard ∧ old.length > 0 ∧ old.length = x.length)
   | [] => True
 
-theorem oldPart_pushOrSwap (mark : Nat) (marks : List Nat) (clock : Nat) (vs : List Version) (x : Bytes)
-    (hc : mark ≤ clock) (hs : SafeSwap mark marks vs x) :
-    oldPart mark (Spec.pushOrSwap marks clock vs x).1 = oldPart mark vs := by
+theorem oldPart_pushOrSwap (mark : Nat) (marks : List Nat) (guard clock : Nat) (vs : List Version) (x : Bytes)
+    (hc : mark ≤ clock) (hs : SafeSwap mark marks guard vs x) :
+    oldPart mark (Spec.pushOrSwap marks guard clock vs x).1 = oldPart mark vs := by
   have hnew : ¬ clock + 1 ≤ mark := by omega
   cases vs with
   | nil => simp [Spec.pushOrSwap, oldPart, hnew]
@@ -183,19 +183,19 @@ theorem oldPart_pushOrSwap (mark : Nat) (marks : List Nat) (clock : Nat) (vs : L
     split
     · rename_i hcond
       simp only [Bool.and_eq_true, decide_eq_true_eq, beq_iff_eq] at hcond
-      have ha : ¬ a ≤ mark := fun h => hs ⟨h, hcond.1.1, hcond.1.2, hcond.2⟩
+      have ha : ¬ a ≤ mark := fun h => hs ⟨h, hcond.1.1.1, hcond.1.1.2, hcond.1.2, hcond.2⟩
       simp [oldPart, ha]
     · simp [oldPart, hnew]
 
-theorem safeSwap_nil (mark : Nat) (marks : List Nat) (vs : List Version) : SafeSwap mark marks vs [] := by
+theorem safeSwap_nil (mark : Nat) (marks : List Nat) (guard : Nat) (vs : List Version) : SafeSwap mark marks guard vs [] := by
   cases vs with
   | nil => trivial
   | cons y ys =>
     obtain ⟨a, old⟩ := y
     simp only [SafeSwap]
     intro h
-    have h1 := h.2.2.1
-    have h2 := h.2.2.2
+    have h1 := h.2.2.2.1
+    have h2 := h.2.2.2.2
     simp only [List.length_nil] at h2
     omega
 
@@ -210,14 +210,14 @@ structure Frame (mark : Nat) (pre : List Nat) (old : Bytes → List Version) (s 
 def Allowed (mark : Nat) (pre : List Nat) (s : Spec) : Op → Prop
   | .release h => h = 0 ∨ h ≠ s.marks.length ∨ pre.length < s.marks.length
   | .cleanup h => h = 0 ∨ h ≠ s.marks.length ∨ pre.length < s.marks.length
-  | .set k v _ => SafeSwap mark s.marks (s.vers k) v
+  | .set k v _ => SafeSwap mark s.marks s.guard (s.vers k) v
   | .revert cp =>
     (decide (cp ≤ s.clock) && (match s.marks.getLast? with | some m => decide (m ≤ cp) | none => true)) = true → mark ≤ cp
   | _ => True
 
 theorem frame_write {mark : Nat} {pre : List Nat} {old : Bytes → List Version} {s : Spec} (hf : Frame mark pre old s)
     (k : Bytes) (v : Option Bytes) (ops : List Nat)
-    (hs : ∀ x, v = some x → SafeSwap mark s.marks (s.vers k) x) : Frame mark pre old (s.write k v ops).1 := by
+    (hs : ∀ x, v = some x → SafeSwap mark s.marks s.guard (s.vers k) x) : Frame mark pre old (s.write k v ops).1 := by
   have hcore : Frame mark pre old (s.writeCore k v ops) := by
     refine ⟨by rw [marks_writeCore]; exact hf.marks, Nat.le_trans hf.clock (clock_writeCore s k v ops), ?_⟩
     intro k'
@@ -226,7 +226,7 @@ theorem frame_write {mark : Nat} {pre : List Nat} {old : Bytes → List Version}
       cases v with
       | none => rw [vers_writeCore_none]; exact hf.vers k'
       | some x =>
-        rw [vers_writeCore_some, oldPart_pushOrSwap mark s.marks s.clock _ x hf.clock (hs x rfl)]
+        rw [vers_writeCore_some, oldPart_pushOrSwap mark s.marks s.guard s.clock _ x hf.clock (hs x rfl)]
         exact hf.vers k'
     · rw [vers_writeCore_other s k k' v ops hk]; exact hf.vers k'
   simp only [Spec.write]
@@ -254,7 +254,7 @@ theorem frame_step {mark : Nat} {pre : List Nat} {old : Bytes → List Version} 
     split
     · exact hf
     · exact frame_write hf k (some v) ops (fun x hx => by cases hx; exact ha)
-  | del k ops => exact frame_write hf k (some []) ops (fun x hx => by cases hx; exact safeSwap_nil _ _ _)
+  | del k ops => exact frame_write hf k (some []) ops (fun x hx => by cases hx; exact safeSwap_nil _ _ _ _)
   | upd k ops => exact frame_write hf k none ops (fun x hx => by cases hx)
   | get k => simp only [Spec.step]; split <;> (try split) <;> exact hf
   | getFlags k => simp only [Spec.step]; split <;> (try split) <;> exact hf
@@ -320,7 +320,7 @@ theorem frame_step {mark : Nat} {pre : List Nat} {old : Bytes → List Version} 
               have := vers_undoTo s mk k mark hmk
               simp only [Spec.vers, Spec.find, Spec.undoTo] at this ⊢
               rw [this]; exact hf.vers k
-  | checkpoint => exact hf
+  | checkpoint => exact ⟨⟨ext, hm, hext⟩, hf.clock, hf.vers⟩
   | revert cp =>
     simp only [Spec.step]
     cases hc : (decide (cp ≤ s.clock) && (match s.marks.getLast? with | some m => decide (m ≤ cp) | none => true)) with
